@@ -295,6 +295,12 @@ enum websocket_callback_return binary_frame_received_comp(bool is_compressed, st
 	}
 }
 
+size_t websocket_compress_bound(size_t length)
+{
+	/* Worst case of deflate for incompressible input plus the flush marker; twice the input alone is too small for short messages. */
+	return length * 2 + 16;
+}
+
 int websocket_compress(const struct websocket *s, uint8_t *dest, uint8_t *src, size_t length)
 {
 	if (s->extension_compression.compression_level == 0) {
@@ -307,7 +313,7 @@ int websocket_compress(const struct websocket *s, uint8_t *dest, uint8_t *src, s
 
 	strm->avail_in = length;
 	strm->next_in = src;
-	strm->avail_out = length * 2;
+	strm->avail_out = websocket_compress_bound(length);
 	strm->next_out = dest;
 	if (s->extension_compression.server_no_context_takeover) {
 		ret = deflate(strm, Z_FULL_FLUSH);
@@ -320,8 +326,11 @@ int websocket_compress(const struct websocket *s, uint8_t *dest, uint8_t *src, s
 		deflateEnd(strm);
 		return -1;
 	}
-	have = length * 2 - strm->avail_out;
-	if (have < 4) log_err("Deflate not enough space!");
+	have = websocket_compress_bound(length) - strm->avail_out;
+	if ((strm->avail_out == 0) || (have < 4)) {
+		log_err("Deflate not enough space!");
+		return -1;
+	}
 
 	if (dest[have - 1] != 0xff) log_err("Error remove tail deflate!");
 	if (dest[have - 2] != 0xff) log_err("Error remove tail deflate!");
